@@ -2,6 +2,7 @@ package props
 
 import (
 	"fmt"
+	"sort"
 	"strings"
 
 	"pgregory.net/rapid"
@@ -42,9 +43,48 @@ func mangleCase(t *rapid.T, s string) string {
 	return string(b)
 }
 
+// ruleSamplesByAttr: for every attribute name the policy has value-pattern rules for, the
+// accepted and rejected samples of those patterns (so that values sit right at the boundary of
+// the policy's own rules).
+func ruleSamplesByAttr(m *Model) map[string][]string {
+	out := map[string][]string{}
+	add := func(k string, rs []rule) {
+		for _, r := range rs {
+			if r.vi >= 0 {
+				out[k] = append(out[k], valRePool[r.vi].good...)
+				out[k] = append(out[k], valRePool[r.vi].bad...)
+			}
+		}
+	}
+	for _, as := range m.elAttrs {
+		for k, rs := range as {
+			add(k, rs)
+		}
+	}
+	for _, as := range m.reAttrs {
+		for k, rs := range as {
+			add(k, rs)
+		}
+	}
+	for k, rs := range m.globAttrs {
+		add(k, rs)
+	}
+	for k := range out {
+		sort.Strings(out[k])
+	}
+	return out
+}
+
+// current policy-derived samples for genAttrKV (set by genSoup / genTree for the duration of one
+// generation; generation is single-threaded per rapid.T)
+var attrSamples map[string][]string
+
 // genAttrKV draws an attribute name and a raw (un-escaped) value.
 func genAttrKV(t *rapid.T, attrs []string) (string, string) {
 	k := rapid.SampledFrom(attrs).Draw(t, "ak")
+	if s := attrSamples[asciiLower(k)]; len(s) > 0 && rapid.IntRange(0, 2).Draw(t, "fromRule") == 0 {
+		return k, rapid.SampledFrom(s).Draw(t, "ruleSample")
+	}
 	var v string
 	switch asciiLower(k) {
 	case "href", "src", "cite", "xlink:href", "action", "formaction", "background", "poster":
@@ -129,6 +169,8 @@ type soupOpts struct {
 }
 
 func genSoup(t *rapid.T, m *Model, o *soupOpts) string {
+	attrSamples = ruleSamplesByAttr(m)
+	defer func() { attrSamples = nil }()
 	els, attrs := m.vocabulary()
 	elChoices := append(append([]string{}, elemPool...), els...)
 	elChoices = append(elChoices, els...)
@@ -249,7 +291,12 @@ func (g *treeGen) gen(depth int) *node {
 		return n
 	}
 	if rawTextEls[el] {
-		n.kids = []*node{g.textNode()}
+		tn := g.textNode()
+		if rapid.IntRange(0, 2).Draw(g.t, "rawTagLike") == 0 {
+			// the reference tokenizer reads this as text of the raw-text / RCDATA element
+			tn.text += rapid.SampledFrom([]string{" <b> bold", " </i>", "<p>", " <a href=x>l", "</b></b>", " <img src=x>", "<!-- c -->", " < b", " </ >", "<b"}).Draw(g.t, "rawTagText")
+		}
+		n.kids = []*node{tn}
 		return n
 	}
 	nk := rapid.IntRange(0, 3).Draw(g.t, "nk")
@@ -286,6 +333,8 @@ type treeOpts struct {
 }
 
 func genTree(t *rapid.T, m *Model, o *treeOpts) string {
+	attrSamples = ruleSamplesByAttr(m)
+	defer func() { attrSamples = nil }()
 	els, attrs := m.vocabulary()
 	g := &treeGen{t: t}
 	g.els = append(append(append([]string{}, elemPool...), els...), els...)
@@ -338,7 +387,7 @@ var cssValuePool = []string{"red", "RED", "blue", "re d", "left", "center", "10p
 	"url(http://x.y/z.png)", "url(javascript:alert(1))", "expression(alert(1))", "0.5", "1.0", "", "a b c", "#fff", "rgb(1,2,3)", "x;y", "\"a;b\"", "url(a;b)", "f(a;b)", "a:b", "{a}", "[a]", "a}b",
 	"'abc", "a\\", "a\\\nb", "/*c*/red", "red/**/", "r/**/ed", "red !important", "red!IMPORTANT", "<b>", "a&b", "@import", "!x", "1px", "none", "2em", "50%", "1px solid red", "1"}
 var cssEscPool = []string{`\72 `, `\72`, `\0072 `, `\000072`, `\000072 `, `\52 `, `\20 `, `\a `, `\9 `, `\d `, `\a0 `, `\5c `, `\5c`, `\10000 `, `\10ffff `, `\110000 `, `\d800 `, `\0 `, `\r`, `\z`, `\;`, `\"`, `\\`,
-	`\3b `, `\3a `, `\28 `, `\2f\2a `, `\5C `, `\5C`, `\0005c`, `\62`, `\6C`, `\000020`, `\00000a`}
+	`\3b `, `\3a `, `\28 `, `\2f\2a `, `\2a\2f `, `\2f* `, ` \2a/`, `\27 `, `\22 `, `\27`, `\22`, `\29 `, `\2c `, `\5C `, `\5C`, `\0005c`, `\62`, `\6C`, `\000020`, `\00000a`}
 var cssPropSpell = []string{"color", "COLOR", "Color", "-webkit-color", "-moz-color", "mso-color", "font-family", "text-decoration", "margin", "background-image", "opacity", "nosuchprop", "text-align",
 	"width", "x-any", "x-kw", "bogus", "col\\6fr", "-webkit--moz-color", "prince-width", "", "a b", "background", "font-size", "border", "animation", "filter", "list-style", "transition", "height", "float",
 	"-o-text-align", "-ms-width"}
